@@ -169,6 +169,14 @@ Definition stmt_pd_scaling : Prop := forall (H : sym3 R) (st zt s z : v3 R),
      (forall x, 0 <= quad3 Hs x) /\
      (forall x, quad3 Hs x = 0 -> vdot s x = 0 /\ vdot (pd_ds t) x = 0)) /\
   (pd_branch TOpsR t = false -> Hs = sym3_scaled_from TOpsR (vdot s z / 3) H).
+(* strict definiteness: t > 0 and z, zt linearly independent *)
+Definition stmt_pd_scaling_strict : Prop := forall (H : sym3 R) (st zt s z : v3 R),
+  vdot st z = -3 -> vdot zt s = -3 ->
+  pd_branch TOpsR (pd_scaling_terms TOpsR H st zt s z) = true ->
+  0 < pd_t TOpsR H st zt s z ->
+  0 < vdot (cross3 TOpsR z zt) (cross3 TOpsR z zt) ->
+  forall x, quad3 (use_primal_dual_scaling TOpsR H st zt s z) x = 0 -> x = (0, 0, 0).
+
 Definition stmt_update_Hs_dual : Prop := forall H st zt s z mu,
   update_Hs TOpsR true H st zt s z mu = sym3_scaled_from TOpsR mu H /\
   update_Hs TOpsR false H st zt s z mu = use_primal_dual_scaling TOpsR H st zt s z.
